@@ -71,6 +71,37 @@ Section Runner.
           end
     end.
 
+  (* pause_on_interrupt = True and the user answers "y": paused i a says that attempt a of step i is interrupted (inside the
+     update, before it returns) and resumed.  Repaired loop: the same step index is tried again, the frame of step i is not
+     written twice (last_saved_step), the buffer is cleared again (a no-op).  As found: the loop went on to index i + 1. *)
+  Variable paused : nat -> nat -> bool.
+  Fixpoint stage_p (repaired : bool) (fuel : nat) (save : bool) (end_time : Tm) (i att : nat) (saved : bool) (s : rstate)
+    : stage_end * rstate :=
+    match fuel with
+    | O => (OutOfFuel, s)
+    | S fuel' =>
+        let at_save := Nat.eqb (i mod k) 0 in
+        let s1 := if at_save
+                  then mkR (r_time s) (r_dt s) (r_vals s) []
+                           (if saved then r_frames s else save_frame save i s (r_buf s) (r_vals s))
+                  else s in
+        if (stop_first && tleb end_time (r_time s1))%bool then (Finished, final_save save i s1)
+        else if paused i att
+        then (if repaired then stage_p repaired fuel' save end_time i (S att) (saved || at_save)%bool s1
+              else stage_p repaired fuel' save end_time (S i) 0 false s1)
+        else
+          match upd i (r_time s1) (r_dt s1) (r_vals s1) with
+          | Err => (Raised, s1)
+          | Kbd => (Cancelled, final_save save i s1)
+          | Ok ndt v rc =>
+              let s2 := mkR (r_time s1) (r_dt s1) v (r_buf s1 ++ [rc]) (r_frames s1) in
+              if (negb stop_first && tleb end_time (r_time s1))%bool
+              then (Finished, final_save save i s2)
+              else stage_p repaired fuel' save end_time (S i) 0 false
+                           (mkR (tadd (r_time s1) ndt) ndt v (r_buf s1 ++ [rc]) (r_frames s1))
+          end
+    end.
+
   (* Runner.run: optional thermalisation stage (never saved), buffer cleared, time and step restart *)
   Definition run (fuel : nat) (skip_time : option Tm) (solve_time : Tm) (dt_init : Tm) (v0 : St)
     : stage_end * rstate :=
